@@ -213,6 +213,7 @@ type globalInit struct {
 	whole  *ssa.Const
 	nonNil bool // interface/pointer initialised with a non-nil value
 	dynType types.Type
+	from    *ssa.Global // initialised by copying another package-level variable
 	mutable bool
 }
 
@@ -296,6 +297,12 @@ func (P *Program) scanGlobals() {
 								gi.dynType = x.Val.(*ssa.MakeInterface).X.Type()
 							case *ssa.Alloc, *ssa.MakeMap, *ssa.MakeSlice, *ssa.MakeClosure, *ssa.Function:
 								gi.nonNil = true
+							case *ssa.UnOp:
+								if ld := x.Val.(*ssa.UnOp); ld.Op == token.MUL {
+									if g2, ok := ld.X.(*ssa.Global); ok {
+										gi.from = g2
+									}
+								}
 							case *ssa.Call:
 								call := x.Val.(*ssa.Call)
 								if sc := call.Call.StaticCallee(); sc != nil {
@@ -345,6 +352,14 @@ func (P *Program) scanGlobals() {
 func (P *Program) globalConst(f *frame, g *ssa.Global) (Term, bool) {
 	P.scanGlobals()
 	gi := P.gconst[g]
+	// a variable that is a copy of another constant variable has that variable's value
+	for hops := 0; gi != nil && !gi.mutable && gi.from != nil && hops < 4; hops++ {
+		src := P.gconst[gi.from]
+		if src == nil || src.mutable {
+			return Term{}, false
+		}
+		g, gi = gi.from, src
+	}
 	T := deref(g.Type())
 	if gi == nil {
 		// never stored: zero value (declared without initialiser) -- but only trust in-repo/simple cases
